@@ -756,10 +756,14 @@ impl Worker {
             Err(_) => "unknown".to_string(),
         };
         let tail = std::fs::read_to_string(&self.stderr_path).unwrap_or_default();
+        // what the worker wrote last; when a backtrace follows the message (RUST_BACKTRACE), the lines that say what
+        // happened come first: keep those too
         let tail: String = {
             let lines: Vec<&str> = tail.lines().collect();
             let from = lines.len().saturating_sub(12);
-            lines[from..].join("\n")
+            let mut keep: Vec<&str> = lines.iter().copied().filter(|l| l.contains("memory allocation of") || l.contains("capacity overflow") || l.contains("has overflowed its stack") || l.contains("panicked at") || l.contains("AddressSanitizer") || l.contains("double free") || l.contains("corrupted")).take(6).collect();
+            keep.extend(lines[from..].iter().copied());
+            keep.join("\n")
         };
         let _ = std::fs::remove_file(&self.stderr_path);
         (how, tail)
